@@ -374,7 +374,47 @@ def check(case) -> Res:
                extra_nontrivial=[case], violations=uniq, transitions=steps)
 
 
+META_STATUS = ["DRAFT", "ACTIVE", "DEPRECATED"]        # builtin META schema (a dict schema, repaired by the write tool itself)
+
+
+def check_builtin(case) -> Res:
+    """META.STATUS under the builtin META schema through octave_write(lenient, schema=META) and octave_validate(fix)."""
+    val = case
+    x = f'===I===\nMETA:\n  TYPE::X\n  VERSION::"1.0"\n  STATUS::{qv(val)}\n---\nA::1\n===END===\n'
+    cs = dict(schema="META", field="STATUS", value=val, placement="meta")
+    viol = []
+    m = [mm for mm in META_STATUS if mm.lower() == val.lower()]
+    allowed = {val} | ({m[0]} if len(m) == 1 else set())
+    path = sl.workfile("b")
+    import os
+    for route, kw in (("write.lenient.META", dict(lenient=True, schema="META")), ("write.strict.META", dict(schema="META"))):
+        if os.path.exists(path):
+            os.unlink(path)
+        r = sl.call("w", target_path=path, content=x, **kw)
+        if r.get("status") != "success":
+            continue
+        after = parse(open(path, "rb").read().decode("utf-8")).meta.get("STATUS")
+        os.unlink(path)
+        reps = [c for c in r.get("corrections", []) if c.get("tier") == "REPAIR"]
+        if after not in allowed or (route.startswith("write.strict") and after != val):
+            viol.append(dict(descriptor=f"{route}:forbidden-change:str->str:enum-field", case=cs, observed=f"STATUS: {val!r} -> {after!r}",
+                             expected="only a case change to the single case-insensitive ENUM match (strict write: no change)"))
+        elif after != val and not any(c.get("before") == val and c.get("after") == after for c in reps):
+            viol.append(dict(descriptor=f"{route}:change-not-logged:ENUM_CASEFOLD", case=cs, observed=f"{val!r} -> {after!r}; corrections={reps}", expected="one REPAIR entry with exact before/after"))
+        elif after == val and reps:
+            viol.append(dict(descriptor=f"{route}:log-entry-without-change", case=cs, observed=reps, expected="no REPAIR entry"))
+    for route, kw in (("validate.fix.META", dict(fix=True)), ("validate.fix_off.META", dict())):
+        r = sl.call("v", content=x, schema="META", **kw)
+        if r.get("status") != "success":
+            continue
+        after = parse(r["canonical"]).meta.get("STATUS")
+        if after not in allowed or (not kw and after != val):
+            viol.append(dict(descriptor=f"{route}:forbidden-change:str->str:enum-field", case=cs, observed=f"STATUS: {val!r} -> {after!r}", expected="only a case change to the single match; none with fix off"))
+    return Res("changed" if viol else "ok", nontrivial=val, violations=viol, transitions=4)
+
+
 def run(ctx):
+    ctx.explore("builtin_meta", enum_perturbations(META_STATUS), check_builtin, chunk=10)
     cases = space()
     ctx.coverage["bounds"] = {"schemas": {k: [f[0] + ":" + f[2] for f in v] for k, v in SCHEMAS.items()}, "numeric_strings": NUMERIC_STRINGS,
                               "placements": PLACEMENTS}
@@ -385,7 +425,7 @@ def run(ctx):
 def replay(ctx, rp):
     c = rp["case"]
     try:
-        r = check((c["schema"], c["field"], c["value"], c["placement"]))
+        r = check_builtin(c["value"]) if c.get("placement") == "meta" else check((c["schema"], c["field"], c["value"], c["placement"]))
         return [v for v in r.violations if v["descriptor"] == rp.get("descriptor")] or r.violations
     finally:
         sl.cleanup()
